@@ -3,8 +3,11 @@
 Exploration: *program space*.  A state is one child expression (a leaf, or an expression of
 size n-1); its transitions are ALL well-typed applications of one more combinator of the
 documented grammar (``a*E, E*a, E/a, E+a, a+E, E-a, a-E, v*E, E*v, E+v, v+E, E-v, v-E, -E, +E,
-E**n, E+F, E-F, E*F, E@F, OperatorPointwiseProduct(E, F)``) with every scalar / vector / leaf
-of the pool as the other operand.  Typing is decided by the reference type system
+E**n, E+F, E-F, E*F, E@F, a@E, E@a, v@E, E@v, OperatorPointwiseProduct(E, F)``) with every
+scalar / vector / leaf of the pool as the other operand.  Pool: 34 leaves on rn(3), rn(2),
+cn(2), between them and on the field R (linear, nonlinear, Functional and plain field-valued
+operators), scalars {2, -1, 1/2, 0, 1j}, two vectors per space.  Quick: every expression of
+size <= 2 over the full pool; thorough: also every expression of size 3 over a reduced pool.  Typing is decided by the reference type system
 (`mc/ref/opalgebra.py`) from domain / range / field as the docstrings of the overloads state
 it; nothing is sampled.
 
